@@ -1,4 +1,5 @@
 import ColoVerif.Model.DetIncr
+import ColoVerif.Model.DetReorderPass
 import ColoVerif.Driver.DetPlaceIO
 /-
 Line protocol of drv_C05: the protocol of `DetPlaceIO` (C02) where the replayed object is the whole
@@ -13,6 +14,19 @@ Line protocol of drv_C05: the protocol of `DetPlaceIO` (C02) where the replayed 
   hp                             -> hp <Circuit.hpwl of the exported circuit> <orientation flag>
                                     (before a reordering write-back: the real models are mid-enumeration)
   everything else                -> as DetPlaceIO, on the placement component (read-only requests only)
+
+Pass level (the model *generates* the moves instead of replaying logged ones; the harness prints the logged
+moves of the same pass on its side, so every move the real loops perform must be the one the modelled
+candidate enumeration + scan performs, in the same order):
+  pass_swaps nbRows nbNeighbours    -> (`val …` of the object before the move, `mv swap c1 c2`)* `pass_swaps done <n>`
+                                       (`Placer.runSwaps`, Model/DetSearch.lean)
+  pass_inserts nbRows nbNeighbours  -> (`val …`, `mv insert c r p`)* `pass_inserts done <n>`      (`Placer.runInserts`)
+  pass_reorder maxNbRows maxNbCells w -> per window of `Placer.runReordering` (Model/DetReorderPass.lean, DetReorder.lean), in order:
+                                       when a better leaf was found: `hp …` (before the write-back), `mv reorder <args of h_reorder>`;
+                                       when w = 1 (hook H3b compiled in): `win n c*n m (row pred next minPos maxPos)*m nbLeaves improvement bestVal`
+                                       (+ ` FUEL` / ` ASSERT` if a ghost flag of the model is set) and `val …` after the window;
+                                       then `pass_reorder done <number of windows if w = 1, of write-backs otherwise>`
+  h_window …                        -> nothing (H3b report, used on the harness side)
 -/
 namespace Driver.DetValueIO
 open ColoVerif ColoVerif.DetPlace Driver Driver.DetPlaceIO
@@ -28,6 +42,63 @@ def doStep (v : VS) (p : Placer) (name : String) (op : Op) : VS × List String :
   | .ok q => ({ base := { v.base with st := some q.pl }, pl := some q }, [])
   | .error e => (v, ["rejected " ++ name ++ " " ++ errName e])
 
+def valLine (v : VS) (p : Placer) : String :=
+  s!"val {p.value} {(exportPlacement p.pl v.base.circ).hpwl} {flag (p.orientKept v.base.circ)}"
+
+def hpLine (v : VS) (p : Placer) : String :=
+  s!"hp {(exportPlacement p.pl v.base.circ).hpwl} {flag (p.orientKept v.base.circ)}"
+
+def intsStr (l : List Int) : String := String.join (l.map fun i => s!" {i}")
+
+/-- the arguments hook H3 logs for a move -/
+def opText : Op → String
+  | .swap a b => s!"swap {a} {b}"
+  | .insert c r q => s!"insert {c} {r} {q}"
+  | .shift mv => "shift" ++ String.join (mv.map fun m => s!" {m.1} {m.2}")
+  | .reorder cells regions =>
+    s!"reorder {cells.length}" ++ intsStr cells ++ s!" {regions.length}" ++
+      String.join (regions.map fun g => s!" {g.row} {g.pred} {g.cells.length}" ++
+        String.join (g.cells.map fun m => s!" {m.1} {m.2}"))
+
+/-- the moves of a search pass, each preceded by the `val` line of the object it is applied to -/
+def movesText (v : VS) : Placer → List Op → List String
+  | _, [] => []
+  | p, op :: ops =>
+    valLine v p :: ("mv " ++ opText op) ::
+      (match p.step op with
+       | .ok q => movesText v q ops
+       | .error e => ["replay-failed " ++ errName e])
+
+def passOut (v : VS) (p : Placer) (name : String) (r : Except Err (Placer × List Op)) : VS × List String :=
+  match r with
+  | .error e => (v, [name ++ " " ++ errName e])
+  | .ok (q, ops) =>
+    ({ base := { v.base with st := some q.pl }, pl := some q }, movesText v p ops ++ [s!"{name} done {ops.length}"])
+
+def winText (w : WindowInfo) : String :=
+  s!"win {w.cells.length}" ++ intsStr w.cells ++ s!" {w.regions.length}" ++
+    String.join (w.regions.map fun g => s!" {g.row} {g.cellPred} {g.cellNext} {g.minPos} {g.maxPos}") ++
+    s!" {w.nbLeaves} {flag w.improvement} {w.bestVal}" ++ (if w.fuelOut then " FUEL" else "") ++
+    (if w.assertFail then " ASSERT" else "")
+
+/-- the windows of a reordering pass in order; `cur` = the placement before the window (for the `hp` line) -/
+def windowsText (v : VS) (withWin : Bool) : Placer → List WindowInfo → List Op → List String
+  | _, [], _ => []
+  | cur, w :: ws, ops =>
+    match w.improvement, ops with
+    | true, op :: ops' =>
+      match cur.pl.step op with
+      | .ok t =>
+        let nxt : Placer := { cur with pl := t }
+        hpLine v cur :: ("mv " ++ opText op) ::
+          ((if withWin then [winText w, s!"val {w.valueAfter} {(exportPlacement t v.base.circ).hpwl} {flag (nxt.orientKept v.base.circ)}"] else []) ++
+           windowsText v withWin nxt ws ops')
+      | .error e => ["replay-failed " ++ errName e]
+    | true, [] => ["window-without-op"]
+    | false, _ =>
+      (if withWin then [winText w, s!"val {w.valueAfter} {(exportPlacement cur.pl v.base.circ).hpwl} {flag (cur.orientKept v.base.circ)}"] else []) ++
+        windowsText v withWin cur ws ops
+
 def mutating : List String := ["swap", "insert", "shift", "reorder", "unplace", "place"]
 
 def stepLine (v : VS) (ws : List String) : VS × List String :=
@@ -39,7 +110,22 @@ def stepLine (v : VS) (ws : List String) : VS × List String :=
     | .ok p => ({ base := { v.base with st := some p.pl }, pl := some p }, ["init ok"])
     | .error e => ({ base := { v.base with st := none }, pl := none }, ["init " ++ errName e])
   | op :: args =>
-    if op == "val" || op == "hp" || op == "h_swap" || op == "h_insert" || op == "h_shift" || op == "h_reorder" then
+    if op == "h_window" then (v, [])
+    else if op == "pass_swaps" || op == "pass_inserts" || op == "pass_reorder" then
+      match v.pl with
+      | none => (v, ["no-state " ++ op])
+      | some p =>
+        match op, ints args with
+        | "pass_swaps", [a, b] => passOut v p "pass_swaps" (p.runSwaps a b)
+        | "pass_inserts", [a, b] => passOut v p "pass_inserts" (p.runInserts a b)
+        | "pass_reorder", [a, b, w] =>
+          match p.runReordering a b with
+          | .error e => (v, ["pass_reorder " ++ errName e])
+          | .ok (q, ops, infos) =>
+            ({ base := { v.base with st := some q.pl }, pl := some q },
+             windowsText v (w == 1) p infos ops ++ [s!"pass_reorder done {if w == 1 then infos.length else ops.length}"])
+        | _, _ => (v, ["bad-op " ++ " ".intercalate ws])
+    else if op == "val" || op == "hp" || op == "h_swap" || op == "h_insert" || op == "h_shift" || op == "h_reorder" then
       match v.pl with
       | none => (v, ["no-state " ++ op])
       | some p =>
